@@ -1,5 +1,5 @@
 """C01 — returned lines are exactly the scanned lines that satisfy the match part."""
-from checks import runfam, mcrun
+from checks import runfam, mcrun, repotraces
 
 PID = "C01"
 JUDGED = {"k", "returned", "votes", "final_returned", "raised", "extra_event", "missing_event"}
@@ -8,7 +8,7 @@ JUDGED = {"k", "returned", "votes", "final_returned", "raised", "extra_event", "
 def main(tier):
     n = 2500 if tier == "quick" else 20000
     return runfam.run(PID, tier, groups=("core",), judged=JUDGED, ncases=n, methods=("collect", "next") if tier != "quick" else ("collect",),
-                      pre=lambda rep: mcrun.run_pool(rep, tier, {"returned", "raised"}, PID))
+                      pre=lambda rep: (mcrun.run_pool(rep, tier, {"returned", "raised"}, PID), repotraces.run(rep, tier, JUDGED, PID)))
 
 
 def replay(path):
